@@ -38,12 +38,17 @@ MANIFEST = dict(
     'signature (C01.alone_neutral, C01.alone_many_neutral - the evaluations the audit of a logit performs by itself), and a formula whose '
     'nodes hold one manager takes the proved engine path (C01.context_value); sequences persist -> evaluate a part alone -> evaluate again '
     '(IdManager+set_id_manager, create_function, BIOGEME.simulate) are run on the real code, every number against the oracle, every '
-    'signature written along the way against the state model.',
-    design='DESIGN.md §5 C01',
+    'signature written along the way against the state model. The signature TEXT is modelled character by character (Model/Sig.lean: the '
+    'per-class writers of get_signature; the reader after the engine\'s bioFormula::processFormula / extractParentheses / split / stoi, whose C++ '
+    'source ships with the package): the reader inverts the writer on every line and every name (C01.text_roundtrip, text_carries_all), so the '
+    'engine path through the bytes is the proved engine path (C01.engine_reads_text); the REAL bytes are parsed by the model on every case, '
+    'including a stream of adversarial names (blanks, brackets, commas, quotation marks, non-ASCII).',
+    design='DESIGN.md §5 C01 and §10.1',
     technique='Lean 4 compiler-correctness proof over an executable DAG/engine model + differential correspondence with the real engine and Python evaluator',
     note='Partial: the C++ engine (cythonbiogeme) arithmetic is modelled from its source, not verified; Float vs real rounding by tolerance 1e-9; '
     'engine defects outside /repo are listed known findings '
-    '(shared ConditionalSum condition node, BelongsTo members parsed as C float).',
+    '(shared ConditionalSum condition node, BelongsTo members parsed as C float); the reading of decimal text as a double (std::stod / Python float) is a '
+    'parameter of the text theorems, supplied per token by the harness.',
 )
 TRUSTED = [
     'C++ engine cythonbiogeme 1.0.4: modelled (Model/Engine.lean semEngine), validated by this correspondence',
